@@ -119,9 +119,12 @@ def gmrf_replay(N, kind, rescale, batched, vals):
 
 
 # ------------------------------------------------------------------ (b) GMRFGammaIntegrated
-def integrated_body(N):
+def integrated_body(N, time_aware=None):
+    """time_aware: None (plain) or the value of the rescale flag (time-aware variant: must integrate the SAME weighted
+    quadratic form as GMRF() with that flag)"""
     from torchtree.core.parameter import Parameter
     from torchtree.distributions import gmrf_integrated as gi
+    from torchtree.distributions.gmrf import GMRF
 
     def body(t, V, W):
         d = t.dag
@@ -131,15 +134,27 @@ def integrated_body(N):
             field = Parameter('field', cm.var_tensor(V, [f'x{i}' for i in range(N)]))
             a = mkfloat(V['alpha'])
             bta = mkfloat(V['beta'])
-            m = gi.GMRFGammaIntegrated('g', field, a, bta)
+            tree = None
+            if time_aware is not None:
+                hs = from_ids(torch.tensor([V[f's{i}'] for i in range(N + 1)] + [V[f'h{i}'] for i in range(N)], dtype=torch.int64))
+                tree = Heights(hs, N + 1)
+            m = gi.GMRFGammaIntegrated('g', field, a, bta, tree, None, time_aware if time_aware is not None else True)
             val = m()
         finally:
             gi.math = saved
         x = [V[f'x{i}'] for i in range(N)]
         ss = 0
-        for i in range(N - 1):
-            df = d.sub(x[i + 1], x[i])
-            ss = d.add(ss, d.mul(df, df))
+        if time_aware is None:
+            for i in range(N - 1):
+                df = d.sub(x[i + 1], x[i])
+                ss = d.add(ss, d.mul(df, df))
+        else:
+            # the weighted sum of squares is taken from the (non-integrated) GMRF with the same flag and precision 1:
+            # GMRF() = (N-1)/2 log 1 - ss/2 - (N-1)/2 log 2pi   =>   ss = -2 (GMRF() + (N-1)/2 log 2pi)
+            one = Parameter('one', torch.ones(1, dtype=torch.float64))
+            g = GMRF('gm', Parameter('f2', cm.var_tensor(V, [f'x{i}' for i in range(N)])), one, Heights(hs, N + 1), None, time_aware)
+            gv = sid(g())
+            ss = d.mul(d.const(-2), d.add(gv, d.mul(d.const((N - 1) / 2), d.const(LOG2PI))))
         al, be = V['alpha'], V['beta']
         half = d.const((N - 1) / 2)
         # log[(2pi)^-(N-1)/2 beta^alpha / Gamma(alpha) Gamma(alpha + (N-1)/2) (beta + ss/2)^-(alpha+(N-1)/2)]
@@ -152,6 +167,26 @@ def integrated_body(N):
                      hyps=ground_axioms(d, [goal]), signature='GMRFGammaIntegrated:closed-form')]
 
     return body, [gi.GMRFGammaIntegrated._call, gi.GMRFGammaIntegrated.__init__]
+
+
+def integrated_time_replay(N, rescale, vals):
+    from torchtree.core.parameter import Parameter
+    from torchtree.distributions.gmrf import GMRF
+    from torchtree.distributions.gmrf_integrated import GMRFGammaIntegrated
+
+    x = torch.tensor([vals.get(f'x{i}', 0.3 * i) for i in range(N)], dtype=torch.float64)
+    a = abs(vals.get('alpha', 1.2)) + 0.05
+    b = abs(vals.get('beta', 0.7)) + 0.05
+    hs = torch.tensor([0.0] * (N + 1) + sorted(abs(vals.get(f'h{i}', 1.0 + i)) + 0.1 * (i + 1) for i in range(N)), dtype=torch.float64)
+    got = float(GMRFGammaIntegrated('g', Parameter('f', x), a, b, Heights(hs, N + 1), None, rescale)())
+    gm = float(GMRF('gm', Parameter('f2', x.clone()), Parameter('one', torch.ones(1, dtype=torch.float64)), Heights(hs, N + 1), None, rescale)())
+    ss = -2 * (gm + (N - 1) / 2 * math.log(2 * math.pi))
+    want = (-(N - 1) / 2 * math.log(2 * math.pi) + a * math.log(b) - math.lgamma(a) + math.lgamma(a + (N - 1) / 2)
+            - (a + (N - 1) / 2) * math.log(b + ss / 2))
+    if abs(got - want) > 1e-9 * max(1.0, abs(want)):
+        return True, (f'GMRFGammaIntegrated(tree_model, rescale={rescale}) = {got} but integrating the GMRF density with the same flag '
+                      f'gives {want}')
+    return False, 'agree'
 
 
 def integrated_replay(N, vals):
@@ -288,6 +323,56 @@ def suffstat_replay(model, n, G, vals):
     return False, 'agree'
 
 
+def ss_batched_task(task, tr):
+    """batched sufficient statistics: row b of the statistics of a batch equals the statistics of row b alone
+    (two trees whose rows interleave sampling and coalescent events differently)"""
+    from symtorch import tracing
+    from torchtree.evolution import coalescent as co
+
+    _, n = task
+    label = f'sufficient statistics skyride, batch of 2 trees, n={n}'
+    tr.fn(co.PiecewiseConstantCoalescent.sufficient_statistics)
+    with tracing() as t:
+        d = t.dag
+        # row 0: all samples at 0; row 1: one tip sampled after the first coalescence
+        rows = [[0.0, 0.0, 0.0, 1.0, 2.5][:2 * n - 1] if n == 3 else None,
+                [0.0, 0.0, 1.7, 1.0, 2.5][:2 * n - 1] if n == 3 else None]
+        hv = [new_vars(f'h{b}', torch.tensor(rows[b], dtype=torch.float64)) for b in range(2)]
+        th = [new_vars(f'theta{b}', torch.tensor([1.5 + b, 2.5 + b], dtype=torch.float64)) for b in range(2)]
+        H = from_ids(torch.stack([x._ids for x in hv]))
+        TH = from_ids(torch.stack([x._ids for x in th]))
+        try:
+            ssb, cb = co.PiecewiseConstantCoalescent(TH, validate_args=False).sufficient_statistics(H)
+        except Exception as e:
+            tr.notes.append(f'{label}: raises {type(e).__name__} (accepted: fails loudly)')
+            tr.obligation('raises:' + label, nontrivial=False)
+            tr.regions += 1
+            return
+        goals = []
+        for b in range(2):
+            s1, c1 = co.PiecewiseConstantCoalescent(th[b], validate_args=False).sufficient_statistics(hv[b])
+            a_ = ssb[b]._ids.reshape(-1).tolist() if isinstance(ssb, SymTensor) else [d.const(float(v)) for v in ssb[b].reshape(-1).tolist()]
+            b_ = s1._ids.reshape(-1).tolist() if isinstance(s1, SymTensor) else [d.const(float(v)) for v in s1.reshape(-1).tolist()]
+            goals.append((f'row {b}: batched sufficient statistics == statistics of that tree alone',
+                          d.and_(*[d.eq(x, y) for x, y in zip(a_, b_)]) if len(a_) == len(b_) else d.FALSE, [],
+                          'skyride:sufficient_statistics:batched'))
+        tr.witness_runs += 1
+        tr.regions += 1
+        V = {d.args[i][0]: i for g in goals for i in d.topo([g[1]]) if d.ops[i] == 'var'}
+
+        def rp(vals):
+            Hh = torch.tensor([[vals.get(f'h{b}[{i}]', rows[b][i]) for i in range(2 * n - 1)] for b in range(2)], dtype=torch.float64)
+            Tt = torch.tensor([[abs(vals.get(f'theta{b}[{i}]', 1.5 + b + i)) + 1e-3 for i in range(n - 1)] for b in range(2)], dtype=torch.float64)
+            sb, _ = co.PiecewiseConstantCoalescent(Tt).sufficient_statistics(Hh)
+            for b in range(2):
+                s1, _ = co.PiecewiseConstantCoalescent(Tt[b]).sufficient_statistics(Hh[b])
+                if not torch.allclose(sb[b].to(torch.float64), s1.to(torch.float64), rtol=1e-9, atol=1e-12):
+                    return True, f'row {b}: batched statistics {sb[b].tolist()} but that tree alone gives {s1.tolist()}'
+            return False, 'agree'
+
+        cm.discharge(tr, d, list(t.pcs), goals, label, replay=rp, varnodes=V, defined=False, timeout=30, parallel=True)
+
+
 # ------------------------------------------------------------------ driver
 def run_task(task, tr):
     import C08
@@ -328,6 +413,26 @@ def run_task(task, tr):
         domain = lambda d, V: [d.lt(0, V['alpha']), d.lt(0, V['beta'])]  # noqa
         rp = lambda vals: integrated_replay(N, vals)  # noqa
         extra = {'N': N}
+    elif kind == 'integrated-time':
+        _, N, rescale = task
+        body, fns = integrated_body(N, rescale)
+        label = f'GMRFGammaIntegrated time-aware N={N} rescale={rescale}'
+        W = {f'x{i}': 0.3 * i * i + 0.1 for i in range(N)}
+        W.update({'alpha': 1.3, 'beta': 0.7})
+        W.update({f's{i}': 0.0 for i in range(N + 1)})
+        W.update({f'h{i}': 0.8 + 0.9 * i for i in range(N)})
+
+        def domain(d, V):
+            cs = [d.lt(0, V['alpha']), d.lt(0, V['beta'])]
+            cs += [d.eq(V[f's{i}'], 0) for i in range(N + 1)]
+            cs += [d.lt(0, V[f'h{i}']) for i in range(N)]
+            cs += [d.not_(d.eq(V[f'h{i}'], V[f'h{j}'])) for i in range(N) for j in range(i)]
+            return cs
+
+        rp = lambda vals: integrated_time_replay(N, rescale, vals)  # noqa
+        extra = {'N': N, 'rescale': rescale}
+    elif kind == 'ss-batched':
+        return ss_batched_task(task, tr)
     elif kind == 'coalint':
         _, n, perm = task
         body, fns = coal_integrated_body(n)
@@ -374,6 +479,7 @@ def tasks_for(tier):
         if N == 3:
             ts.append(('gmrf', N, 'time-aware', True, False))
             ts.append(('gmrf', N, 'time-aware', False, False))
+    ts += [('integrated-time', 3, True), ('integrated-time', 3, False), ('ss-batched', 3)]
     n = 3
     for perm in itertools.permutations(range(n)):
         ts.append(('coalint', n, perm))
